@@ -645,3 +645,175 @@ func c09Has(c *Ctx) {
 		r.AnchorMissing("C09.has", fmt.Sprintf("presence accessors of jwt.RawJWT (found %d)", n))
 	}
 }
+
+// ---------------------------------------------------------------- C16.instances
+//
+// Every switch of package signature/slhdsa that maps a parameter set to the
+// internal SLH-DSA instance uses, in the case for slhDSA<X>(), the instance
+// SLH_DSA_<X>: key generation, encoding lengths, signer and verifier all agree
+// on which of the twelve instances a parameter set means (SHA2-192f and
+// SHAKE-192f have the same sizes, so a swapped case passes every length check).
+func c16Instances(c *Ctx) {
+	p, r := c.P, c.R
+	norm := func(s string) string {
+		s = strings.ToUpper(strings.ReplaceAll(s, "_", ""))
+		return strings.TrimPrefix(s, "SLHDSA")
+	}
+	n := 0
+	for _, f := range pkgFuncs(p, "signature/slhdsa") {
+		allInstrs(f, func(ins ssa.Instruction) {
+			u, ok := ins.(*ssa.UnOp)
+			if !ok || u.Op != token.MUL {
+				return
+			}
+			g, isG := u.X.(*ssa.Global)
+			if !isG || g.Pkg == nil || core.Rel(g.Pkg.Pkg.Path()) != "internal/signature/slhdsa" || !strings.HasPrefix(g.Name(), "SLH_DSA_") {
+				return
+			}
+			var cases []string
+			for _, fct := range guard.BlockFacts(ins.Block()) {
+				op, x, y, isC := guard.Cmp(fct)
+				if !isC || op != token.EQL {
+					continue
+				}
+				for _, side := range []ssa.Value{x, y} {
+					if cc, _ := guard.CallOf(side); cc != nil {
+						if callee := cc.Call.StaticCallee(); callee != nil && callee.Pkg == f.Pkg && strings.HasPrefix(callee.Name(), "slhDSA") {
+							cases = append(cases, callee.Name())
+						}
+					}
+				}
+			}
+			if len(cases) != 1 {
+				return
+			}
+			n++
+			key := fmt.Sprintf("C16.instances/%s/%s", core.FuncID(f), cases[0])
+			r.Check(norm(cases[0]) == norm(g.Name()), "C16.instances", key, p.Pos(ins.Pos()),
+				fmt.Sprintf("the case for parameter set %s() uses the internal instance %s", cases[0], g.Name()), "case "+cases[0]+"() uses "+g.Name())
+		})
+	}
+	if n < 24 {
+		r.AnchorMissing("C16.instances", fmt.Sprintf("parameter-set cases using an internal SLH-DSA instance in signature/slhdsa (found %d)", n))
+	}
+}
+
+// ---------------------------------------------------------------- C04.cbcchain
+//
+// CMAC is a chained CBC-MAC: a bulk path that feeds the message to
+// crypto/cipher's CBC mode in chunks must carry the chaining value from one
+// chunk to the next. A cipher.NewCBCEncrypter created inside a loop therefore
+// takes an IV buffer that the same loop writes (the last ciphertext block of
+// the previous chunk); an encrypter created once outside the loop keeps the
+// chain in its own state. An encrypter re-created per chunk over an IV that the
+// loop never updates restarts the chain at every chunk.
+func c04CBCChain(c *Ctx) {
+	p, r := c.P, c.R
+	n := 0
+	for _, f := range pkgFuncs(p, "internal/mac/aescmac") {
+		allInstrs(f, func(ins ssa.Instruction) {
+			call, ok := ins.(*ssa.Call)
+			if !ok || guard.CalleeName(&call.Call) != "crypto/cipher.NewCBCEncrypter" || !inCycle(call.Block()) {
+				return
+			}
+			n++
+			key := fmt.Sprintf("C04.cbcchain/%s#%d", core.FuncID(f), n)
+			// the IV buffer: strip slicing
+			iv := guard.Strip(call.Call.Args[1])
+			for {
+				sl, isSl := iv.(*ssa.Slice)
+				if !isSl {
+					break
+				}
+				iv = guard.Strip(sl.X)
+			}
+			written := false
+			allInstrs(f, func(i2 ssa.Instruction) {
+				if !inCycle(i2.Block()) {
+					return
+				}
+				c2, isC := i2.(*ssa.Call)
+				if !isC || len(c2.Call.Args) == 0 {
+					return
+				}
+				nme := guard.CalleeName(&c2.Call)
+				if nme != "copy" && nme != "crypto/subtle.XORBytes" && !strings.HasSuffix(nme, ").Encrypt") && !strings.HasSuffix(nme, ").CryptBlocks") {
+					return
+				}
+				dst := guard.Strip(c2.Call.Args[0])
+				if c2.Call.IsInvoke() && len(c2.Call.Args) > 0 {
+					dst = guard.Strip(c2.Call.Args[0])
+				}
+				for {
+					sl, isSl := dst.(*ssa.Slice)
+					if !isSl {
+						break
+					}
+					dst = guard.Strip(sl.X)
+				}
+				if dst == iv {
+					written = true
+				}
+			})
+			r.Check(written, "C04.cbcchain", key, p.Pos(call.Pos()), "a CBC encrypter is created per chunk over an IV that the loop never updates: the CBC-MAC chain restarts at every chunk, so the tag of a long message depends only on its last chunk", "the loop writes the IV buffer (chaining value carried)")
+		})
+	}
+	if n == 0 {
+		r.Ok("C04.cbcchain", "C04.cbcchain/none", "-", "no CBC encrypter is created inside a loop of the CMAC implementation")
+	}
+}
+
+// ---------------------------------------------------------------- C14.nilmsg
+//
+// A sub-message getter of a generated proto type returns nil when the
+// sub-message is absent (untrusted input may omit it). Reading a *field* of
+// that result directly — instead of through its nil-safe getter — panics.
+// Every direct field access on a getter's pointer result is dominated by a
+// nil test of that value.
+func c14NilMsg(c *Ctx) {
+	p, r := c.P, c.R
+	n := 0
+	for _, f := range p.SortedFuncs(core.Product) {
+		allInstrs(f, func(ins ssa.Instruction) {
+			fa, ok := ins.(*ssa.FieldAddr)
+			if !ok {
+				return
+			}
+			call, isCall := guard.Strip(fa.X).(*ssa.Call)
+			if !isCall {
+				return
+			}
+			g := call.Call.StaticCallee()
+			if g == nil || !strings.HasPrefix(g.Name(), "Get") || core.FuncClass(g) != core.Generated {
+				return
+			}
+			if _, isPtr := call.Type().Underlying().(*types.Pointer); !isPtr {
+				return
+			}
+			n++
+			key := fmt.Sprintf("C14.nilmsg/%s/%s().%s", core.FuncID(f), g.Name(), effectsFieldName(fa))
+			guarded := false
+			for _, fct := range guard.InstrFacts(ins) {
+				if op, x, y, isC := guard.Cmp(fct); isC && op == token.NEQ {
+					if (guard.Strip(x) == ssa.Value(call) && guard.IsNilConst(y)) || (guard.Strip(y) == ssa.Value(call) && guard.IsNilConst(x)) {
+						guarded = true
+					}
+				}
+			}
+			r.Check(guarded, "C14.nilmsg", key, p.Pos(ins.Pos()), "a field of the (possibly nil) result of "+g.Name()+"() is read directly: a serialized key that omits the sub-message makes the parser panic instead of returning an error", "dominated by a nil test of the sub-message")
+		})
+	}
+	r.Counts["direct_fields_of_getter_results"] = n
+	if n == 0 {
+		r.Ok("C14.nilmsg", "C14.nilmsg/none", "-", "no direct field access on the result of a proto sub-message getter")
+	}
+}
+
+func effectsFieldName(fa *ssa.FieldAddr) string {
+	if pt, ok := fa.X.Type().Underlying().(*types.Pointer); ok {
+		if st, ok := pt.Elem().Underlying().(*types.Struct); ok {
+			return st.Field(fa.Field).Name()
+		}
+	}
+	return "?"
+}
